@@ -325,6 +325,10 @@ func muts() []mut {
 		{"dur=11s", tm(func(t *T) { wk(t).DefaultDuration = &durationpb.Duration{Seconds: 11} })},
 		{"dur=-10s", tm(func(t *T) { wk(t).DefaultDuration = &durationpb.Duration{Seconds: -10} })},
 		{"dur=0", tm(func(t *T) { wk(t).DefaultDuration = &durationpb.Duration{} })},
+		// fractions on both sides of zero: the gap's nanoseconds carry into its seconds
+		{"dur=-0.6s", tm(func(t *T) { wk(t).DefaultDuration = &durationpb.Duration{Nanos: -600000000} })},
+		{"dur=+0.7s", tm(func(t *T) { wk(t).DefaultDuration = &durationpb.Duration{Nanos: 700000000} })},
+		{"dur=-1.9s", tm(func(t *T) { wk(t).DefaultDuration = &durationpb.Duration{Seconds: -1, Nanos: -900000000} })},
 		// beyond what a time.Duration can hold (about 292 years): a durationpb.Duration reaches 10000 years
 		{"dur=+200y", tm(func(t *T) { wk(t).DefaultDuration = &durationpb.Duration{Seconds: 200 * 31557600} })},
 		{"dur=-200y", tm(func(t *T) { wk(t).DefaultDuration = &durationpb.Duration{Seconds: -200 * 31557600} })},
@@ -641,16 +645,17 @@ func checkStreams(s *hx.Seq) {
 	}
 	rec(nil)
 	for _, sq := range seqs {
-		for _, kind := range []string{"value", "collection"} {
+		for _, kind := range []string{"value", "collection", "value/updates-only", "collection/updates-only"} {
 			s.Eval(1)
 			s.Trans(len(sq))
 			ctx, cancel := context.WithCancel(context.Background())
 			var got []float32
 			done := make(chan struct{})
 			const sentinel = 1000
-			if kind == "value" {
+			uo := strings.HasSuffix(kind, "/updates-only") // the subscriber holds nothing until its first event
+			if strings.HasPrefix(kind, "value") {
 				v := resource.NewValue(resource.WithInitialValue(&T{DefaultFloat: 1}), resource.WithMessageEquivalence(eq))
-				ch := v.Pull(ctx, resource.WithBackpressure(true))
+				ch := v.Pull(ctx, resource.WithBackpressure(true), resource.WithUpdatesOnly(uo))
 				go func() {
 					for e := range ch {
 						f := e.Value.(*T).DefaultFloat
@@ -667,7 +672,7 @@ func checkStreams(s *hx.Seq) {
 				v.Set(&T{DefaultFloat: sentinel})
 			} else {
 				c := resource.NewCollection(resource.WithInitialRecord("a", &T{DefaultFloat: 1}), resource.WithMessageEquivalence(eq))
-				ch := c.Pull(ctx, resource.WithBackpressure(true))
+				ch := c.Pull(ctx, resource.WithBackpressure(true), resource.WithUpdatesOnly(uo))
 				go func() {
 					for e := range ch {
 						f := e.NewValue.(*T).DefaultFloat
@@ -685,14 +690,17 @@ func checkStreams(s *hx.Seq) {
 			}
 			<-done
 			cancel()
-			// reference: the subscriber holds `held` (the seed first); a write is delivered iff it
-			// is not equivalent to what the subscriber holds
-			held := float32(1)
+			// reference: the subscriber holds `held` (the seed first; nothing for an updates-only subscription); a write
+			// is delivered iff it is not equivalent to what the subscriber holds
+			held, holds := float32(1), !uo
 			want := []float32{1}
+			if uo {
+				want = nil
+			}
 			for _, f := range sq {
-				if math.Abs(float64(f-held)) > 0.1 {
+				if !holds || math.Abs(float64(f-held)) > 0.1 {
 					want = append(want, f)
-					held = f
+					held, holds = f, true
 				}
 			}
 			if fmt.Sprint(got) != fmt.Sprint(want) {
